@@ -17,6 +17,9 @@ def tok(kind, s, b=True, text=None):
 
 
 def num_tok(rng, v, b=True, form=None):
+    # no `%101` spelling inside instructions: `%` is also a pattern literal of the generated sub-rules, and the
+    # matcher works on characters, so `%101` after such a literal is `%` + the DECIMAL 101 (token-level model, DESIGN section 7)
+    form = form or rng.choice(["dec", "dec", "hex", "hex", "bin", "oct", "dollar"])
     text = genexpr.lit_text(rng, v, form)
     return tok("num", "", b, text)
 
@@ -66,7 +69,7 @@ def gen_rule(rng, block, opcode, subblocks):
         if k == 0:
             pat.append({"p": "ws"})
         else:
-            sep = rng.choice([",", ",", ",", "+", "-", "with"]) if k == 1 or rng.random() < 0.7 else ","
+            sep = rng.choice([",", ",", "+", "-", "-", "-", "with"]) if k == 1 or rng.random() < 0.7 else ","
             if sep.isalpha():
                 # a word between two operands (its first letter is the look-ahead of the operand before it)
                 pat.append({"p": "ws"})
@@ -589,7 +592,8 @@ def render_program_decorated(P, decor):
             sp = "".join(t["text"]) if t["k"] == "num" else t["s"]
             if t["b"] and i > 0:
                 s = rng.choice([" ", "  ", "\t", " \t "]) if decor["tabs"] else " "
-                if decor["comments"] and rng.random() < 0.25:
+                # (more often in front of a token that is punctuation: an operand's sign or bracket may also be a separator)
+                if decor["comments"] and rng.random() < (0.7 if t["k"] == "op" else 0.3):
                     s = s + ";* c *; "
                 out.append(s)
             out.append(sp)
